@@ -189,6 +189,14 @@ class ArrayUnionMatcher(CombinationMatcher):
                 % (self.__class__.__name__, self._submatchers, self._boost,
                    self._scored, self._partsize))
 
+    def reset(self):
+        # Rewind the sub-matchers and buffer the first part again, as
+        # __init__ does
+        for subm in self._submatchers:
+            subm.reset()
+        self._docnum = self._min_id()
+        self._read_part()
+
     def _min_id(self):
         active = [subm for subm in self._submatchers if subm.is_active()]
         if active:
